@@ -435,3 +435,17 @@ Example ex2_wf : wf ex_env ex_ke ex_ms2.
 Proof. cbn. repeat split; try lia; reflexivity. Qed.
 Example ex2_run : exec ex_env (enc ex_ke ex_ms2) (mkSt [[2;0;1]; []; [2;3;1]; []; [9]]%N []) = Ok (mkSt [[1]; [9]]%N []).
 Proof. vm_compute. reflexivity. Qed.
+
+(* remark: what n promises is "not the empty vector" (what j: tests with SIZE 0NOTEQUAL), not "script-true":
+   a 32-byte preimage that is a negative zero (0x00..0080) satisfies a hash fragment, which is typed n *)
+Lemma n_is_nonempty_not_script_true :
+  exists (e : env) (ke : keyenv) (m : ms) (t : ty) (x : bytes),
+    nhyp e /\ type_of m = ROk t /\ wf e ke m /\ isn (c_input (t_corr t)) = true /\ c_base (t_corr t) = BB /\
+    exec e (enc ke m) (mkSt [x] []) = Ok (mkSt [[1%N]] []) /\ x <> [] /\ truthy x = false.
+Proof.
+  exists ex_env, ex_ke, (MSha256 (1%N :: repeat 0%N 31 ++ [128%N])). eexists. exists (repeat 0%N 31 ++ [128%N]).
+  split; [exact ex_nhyp|]. split; [vm_compute; reflexivity|].
+  split; [cbn [wf]; intros H; vm_compute in H; discriminate|].
+  split; [reflexivity|]. split; [reflexivity|].
+  split; [vm_compute; reflexivity|]. split; [vm_compute; discriminate | vm_compute; reflexivity].
+Qed.
